@@ -102,9 +102,14 @@ fn do_op(text: &str) {
             push_log(format!("call deliver {} {}", sig, id));
             let mut info: libc::siginfo_t = unsafe { std::mem::zeroed() };
             fill(&mut info, sig, id);
+            let before = sched::HANDLER_HEAP_OPS.load(std::sync::atomic::Ordering::SeqCst);
             IN_DELIVERY.with(|x| x.set(x.get() + 1));
             unsafe { verif::deliver(sig, &mut info, std::ptr::null_mut()) };
             IN_DELIVERY.with(|x| x.set(x.get() - 1));
+            let heap = sched::HANDLER_HEAP_OPS.load(std::sync::atomic::Ordering::SeqCst) - before;
+            if heap > 0 {
+                push_log(format!("HEAP-IN-HANDLER {}", heap));
+            }
             push_log("ret done".into());
         }
         ["add", sig] => {
